@@ -546,7 +546,95 @@ def check_named_unpack_binds_names_only(repo, rep):
             loc=mod.loc(sx), construct=model.norm(sx).split('\n')[0])
 
 
+# lambdas that are, by design, evaluated in a context the *callee* chooses
+# (reviewed one by one; every other lambda is lexically scoped by R04b)
+WITH_CONTEXT_LAMBDAS = {
+    ('yaql.standard_library.system:send_context', 'right'):
+        '`ctx -> expr`: the right operand is evaluated in the context the '
+        'left operand produced -- that is the operator',
+    ('yaql.standard_library.regex:search', 'selector'):
+        'match variables ($1, $name) are published into a child context',
+    ('yaql.standard_library.regex:search_all', 'selector'):
+        'as search',
+    ('yaql.standard_library.regex:replace_by', 'repl'):
+        'as search',
+    ('yaql.standard_library.regex:replace_by_string', 'repl'):
+        'as search',
+    ('yaql.standard_library.legacy:switch', 'conditions'):
+        'legacy (0.2) switch: conditions see the receiver as $',
+    ('yaql.standard_library.legacy:op_dot_context', 'expr'):
+        'legacy (0.2) `.`: the right operand is evaluated with the left '
+        'value as $',
+}
+
+
+def check_scopes_of_lazy_parameters(repo, rep, uni):
+    """R04h.  (1) Which lambdas a callee may evaluate in a context of its own
+    choosing is a closed, reviewed list: a lambda parameter declared
+    with_context=True anywhere else (the body of def(), a selector) is
+    evaluated where it is *called*, i.e. dynamically scoped.  (2) The values
+    that let / with / unpack store under context keys are ordinary, eagerly
+    evaluated arguments: declared lazy they would be evaluated by the
+    binder, inside the very context it is filling (so `$` would mean the
+    first value given to with())."""
+    seen = set()
+    n = 0
+    for o in uni.reg.overloads:
+        for p in o.params:
+            if p.type.lazy and 'with_context=True' in p.type.text.replace(
+                    ' ', ''):
+                k = (o.func.key, p.name)
+                if k in seen:
+                    continue
+                seen.add(k)
+                n += 1
+                rep.ob('R04h', '%s/%s/with-context' % k,
+                       k in WITH_CONTEXT_LAMBDAS,
+                       'parameter `%s` of %s is declared %s: the lambda is '
+                       'then evaluated in a context chosen at the call, not '
+                       'in the scope it was written in (closures keep their '
+                       'defining scope); only the reviewed context '
+                       'operators may do that' % (p.name, o.func.qualname,
+                                                  p.type.text),
+                       loc=o.func.module.loc(o.func.node))
+    for k in WITH_CONTEXT_LAMBDAS:
+        if k not in seen:
+            rep.note('reviewed with_context lambda %s/%s no longer exists'
+                     % k)
+    # (2) binders store eagerly evaluated values
+    sysm = repo.module('yaql.standard_library.system')
+    m = 0
+    done = set()
+    for o in uni.reg.overloads:
+        fi = o.func
+        if fi.module is not sysm or fi.key in done:
+            continue
+        done.add(fi.key)
+        env = None
+        for w in effects.writes_in(fi.node):
+            if w.kind != 'subscript' or w.value is None:
+                continue
+            env = env or uni.env(fi)
+            tv = env.ev(w.target)
+            if not any(t[0] in ('ctx', 'ctxchild') for t in tv.tags):
+                continue
+            m += 1
+            v = env.ev(w.value)
+            lazy = [t for t in v.tags | v.c1 if t[0] in ('lazy', 'lazyres')]
+            rep.ob('R04h', '%s/stores-eager-values' % fi.key, not lazy,
+                   '%s stores the result of a lazily evaluated argument '
+                   '(%s) under a context key: the argument is then '
+                   'evaluated by the binder inside the context it is '
+                   'filling, where `$` / $1 already mean the values being '
+                   'bound' % (fi.qualname, model.norm(w.value)),
+                   loc=sysm.loc(w.node), construct=model.norm(w.node))
+    rep.floor('with_context lambda parameters reviewed', n, 5)
+    rep.floor('context stores of the binders', m, 4)
+
+
 def run(repo, rep):
+    rep.rule('R04h', 'SCOPES-OF-LAZY-PARAMETERS: with_context lambdas are a '
+             'closed reviewed list; binders store eagerly evaluated values')
     rep.rule('R04e', 'COLLECTION-MEMBER-IS-A-MAP: the collection overload '
              'of `.` answers every element through the `.` delegate')
     rep.rule('R04f', 'NAMED-UNPACK-BINDS-NAMES-ONLY: positional stores of '
@@ -588,6 +676,7 @@ def run(repo, rep):
     from sa import universe as _u
     check_collection_attribution(repo, rep, _u.Universe(repo))
     check_named_unpack_binds_names_only(repo, rep)
+    check_scopes_of_lazy_parameters(repo, rep, _u.Universe(repo))
     # R04e: bindings shadow, missing is null, `$` is `$1` -- the context
     # classes' clauses (decided by C17's rules, repeated here because the
     # statement of C04 names them)
